@@ -2879,7 +2879,9 @@ func treasureToKeyValuePair(treasureInterface treasure.Treasure, t *hydrapb.Trea
 		modifiedBy := treasureInterface.GetModifiedBy()
 		t.UpdatedBy = &modifiedBy
 	}
-	if treasureInterface.GetExpirationTime() > 0 {
+	// 0 means "no expiration"; a negative value is a (pre-1970) expiration time that the
+	// expiration index, ShiftExpiredTreasures and PatchExpiredTreasures all honour
+	if treasureInterface.GetExpirationTime() != 0 {
 		t.ExpiredAt = timestamppb.New(time.Unix(0, treasureInterface.GetExpirationTime()))
 	}
 
